@@ -33,9 +33,7 @@ def read_matrix(fn):
     return m
 
 def seeded_table():
-    first = read_matrix('matrix-quick.txt'); first.update(read_matrix('matrix-r2-first.txt')); first.update(read_matrix('matrix-r3-first.txt'))
-    final = read_matrix('matrix-final.txt'); final.update(read_matrix('matrix-r3-final.txt'))
-    extra = read_matrix('matrix-extra.txt')
+    """Every meta.json carries its own detection rows (first run, final run, other checks)."""
     rows = ["| change | what it breaks (needs) | first run (own quick check) | after strengthening | caught by |",
             "|---|---|---|---|---|"]
     for d in sorted(glob.glob(os.path.join(here, 'seeded', 'C*'))):
@@ -49,14 +47,14 @@ def seeded_table():
         if len(what) > 150: what = what[:147] + '...'
         if len(needs) > 120: needs = needs[:117] + '...'
         def verdict(m):
-            r = m.get(name)
-            if not r: return '-'
-            return 'caught' if any(x[2] == 1 for x in r) else 'missed'
+            if not m: return '-'
+            return 'caught' if any(v.get('exit') == 1 for v in m.values()) else 'missed'
+        first, final, extra = meta.get('detection_first_run') or {}, meta.get('detection_final') or {}, meta.get('detection_other_checks') or {}
         by = []
         for src in (final, extra):
-            for (pid, tier, rc, clauses) in src.get(name, []):
-                if rc == 1:
-                    by.append("%s %s: %s" % (pid, tier, ", ".join(sorted(set(clauses))[:3])))
+            for k, v in src.items():
+                if v.get('exit') == 1:
+                    by.append("%s: %s" % (k.replace(':', ' '), ", ".join(sorted(set(v.get('clauses') or []))[:3])))
         rows.append("| %s | %s (%s) | %s | %s | %s |" % (name, what, needs, verdict(first), verdict(final) if verdict(final) != '-' else verdict(first), "; ".join(by) or '-'))
     return "\n".join(rows)
 
